@@ -1,5 +1,5 @@
 CONSTANTS
-  MAXKEYS = 2
+  MAXKEYS = 1
   MAXKEYS_RED = 2
 INIT Init
 NEXT Next
